@@ -1,3 +1,6 @@
-import U3.Base.Str
 import U3.Base.Proto
+import U3.Base.Str
+import U3.Drive.Headers
+import U3.Gen.Collections
 import U3.Model.Headers
+import U3.Props.C16
